@@ -26,6 +26,10 @@
                                      in the initial box, and f ≤ loup (rigor mode: every point of the thin box lies in the
                                      initial box and has f ≤ loup; that the box contains an exactly feasible point is the
                                      existence claim of C09)
+    * `witness_refuted_box` / `witness_refuted_point`   what a REFUTED loup point means (`witBoxRefuted_sound`,
+                                     `witRefuted_sound`, `infeasQ_sound`): the point is NOT a feasible real point with f ≤ loup;
+                                     the thin box is empty, leaves the initial box, violates a constraint at every real point
+                                     where it is defined, or has an objective enclosure above loup
     * `success_precision`            SUCCESS ⇒ the documented precision test holds on the exact values, and a witness is given
     * `infeasible_sound`             INFEASIBLE ⇒ none of the checked points is feasible (below the initial loup)
     * `resumed_sound` (C18, optimizer half)  an accepted interrupted-saved-reloaded-resumed run satisfies all of the above,
@@ -144,6 +148,42 @@ theorem witness_rigor {P : Problem} {R : Run} {res : Result} (h : witness P R re
   · unfold witnessBox at h
     split_ifs at h with h1 h2 h3
     exact ⟨by simpa using h1, fun ρ hρ => witRigor_sound h3 hρ⟩
+
+/-- rigor mode, a REFUTED thin box (`pointOf res.lp = none`): a witness was due (`loup` below the initial loup) and the
+    box is empty, or leaves the initial box, or some constraint is violated at EVERY real point of the box at which it is
+    defined (equalities judged exactly: `epsH = 0`), or the model's enclosure of the objective on the box exceeds `loup`
+    (`witBoxRefuted_sound` with `rigor := true`) -/
+theorem witness_refuted_box {P : Problem} {R : Run} {res : Result} (hp : pointOf res.lp = none)
+    (hr : R.rigor = true) (h : witness P R res = .refuted) :
+    res.loup.toE < R.initLoup.toE ∧
+    (Box.isEmpty res.lp = true ∨ Box.subset res.lp P.box = false ∨
+      (∃ c ∈ P.ctrs, ∀ ρ, Box.Mem ρ res.lp → ∀ v, RealVal c.1 ρ v → ¬ SpecHolds (0 : ℝ) c.2 v) ∨
+      (∃ lo hi, itvVal P.obj res.lp = some (.mk lo hi) ∧ Ext.le hi res.loup = false)) := by
+  unfold witness at h
+  split_ifs at h with hlt
+  refine ⟨(Ext.lt_iff _ _).1 (by simpa using hlt), ?_⟩
+  rw [hp] at h
+  simp only [witnessBox, hr, Bool.not_true, Bool.false_eq_true, if_false] at h
+  split_ifs at h with h2 h3
+  simpa using witBoxRefuted_sound h2
+
+/-- a REFUTED point witness: a witness was due, and either the exact checker refutes the point — then it is NOT a
+    feasible real point with `f ≤ loup` (`witRefuted_sound`) — or the point lies outside the definition domain of the
+    objective or of a constraint (`witUndefined`, a diagnosis of the interval model) -/
+theorem witness_refuted_point {P : Problem} {R : Run} {res : Result} {p : List ℚ} (hp : pointOf res.lp = some p)
+    (h : witness P R res = .refuted) :
+    res.loup.toE < R.initLoup.toE ∧
+    ((witRefuted P res.loup p = true ∧
+        ¬ (Feasible P (castPt p) ∧ ∃ v, RealVal P.obj (castPt p) v ∧ ((v : ℝ) : EReal) ≤ res.loup.toE)) ∨
+      witUndefined P res.lp = true) := by
+  unfold witness at h
+  split_ifs at h with hlt
+  refine ⟨(Ext.lt_iff _ _).1 (by simpa using hlt), ?_⟩
+  rw [hp] at h
+  simp only [witnessPoint] at h
+  split_ifs at h with h1 h2 h3 h4
+  · exact Or.inl ⟨h2, witRefuted_sound h2⟩
+  · exact Or.inr h3
 
 /-- rigor mode: the witness is judged against the ORIGINAL problem (`witProblem`): a point returned in rigor mode satisfies
     every equality EXACTLY (`epsH = 0`), not within the relaxation `eps_h` -/
@@ -301,6 +341,17 @@ example : resultOk exP exR { exRes with uplo := .fin 1 } exPts = false := by dec
 example : witness exP exR { exRes with lp := pt (-1 / 64) } = .refuted := by decide +kernel
 example : witness exP exR { exRes with lp := pt (5 / 2), loup := .fin 5 } = .refuted := by decide +kernel
 example : witness exP exR { exRes with loup := .fin 2 } = .refuted := by decide +kernel
+/-- the refuting checkers are not vacuous: an enclosure `[1,2]` refutes `= 0` (rigor) and `≤ 0`, `[1/2,2]` does not refute
+    `|·| ≤ 1`; in rigor mode a thin box on which `x - 2 ≤ 0` fails everywhere is refuted, one inside the feasible set with
+    `f ≤ loup` is kept -/
+example : specRefuted 0 true "eq" (.mk (.fin 1) (.fin 2)) = true := by decide +kernel
+example : specRefuted 1 false "leq" (.mk (.fin 1) (.fin 2)) = true := by decide +kernel
+example : specRefuted 1 false "eq" (.mk (.fin (1 / 2)) (.fin 2)) = false := by decide +kernel
+example : witness exP { exR with rigor := true } { exRes with lp := [.mk (.fin (5 / 2)) (.fin (11 / 4))], loup := .fin 10 }
+    = .refuted := by decide +kernel
+example : witBoxRefuted exP true (.fin 10) [.mk (.fin (5 / 2)) (.fin (11 / 4))] = true := by decide +kernel
+example : witness exP { exR with rigor := true } { exRes with lp := [.mk (.fin 1) (.fin (65 / 64))] } = .rigorBox := by
+  decide +kernel
 /-- INFEASIBLE on this feasible problem is rejected; NO_FEASIBLE_FOUND with a loup is rejected -/
 example : resultOk exP exR ⟨"INFEASIBLE", .ninf, .pinf, [.mk (.fin 0) (.fin 3)]⟩ exPts = false := by decide +kernel
 example : resultOk exP exR { exRes with status := "NO_FEASIBLE_FOUND" } exPts = false := by decide +kernel
